@@ -116,7 +116,7 @@ pub mod c_api {
 
     #[no_mangle]
     pub unsafe extern "C" fn xeh_is_nil(val: *const Xcell) -> bool {
-        match *val {
+        match (*val).value() {
             Xcell::Nil => true,
             _ => false,
         }
@@ -124,7 +124,7 @@ pub mod c_api {
 
     #[no_mangle]
     pub unsafe extern "C" fn xeh_is_int(val: *const Xcell) -> bool {
-        match *val {
+        match (*val).value() {
             Xcell::Int(_) => true,
             _ => false,
         }
@@ -132,7 +132,7 @@ pub mod c_api {
 
     #[no_mangle]
     pub unsafe extern "C" fn xeh_is_real(val: *const Xcell) -> bool {
-        match *val {
+        match (*val).value() {
             Xcell::Real(_) => true,
             _ => false,
         }
@@ -140,7 +140,7 @@ pub mod c_api {
 
     #[no_mangle]
     pub unsafe extern "C" fn xeh_is_string(val: *const Xcell) -> bool {
-        match *val {
+        match (*val).value() {
             Xcell::Str(_) => true,
             _ => false,
         }
@@ -148,7 +148,7 @@ pub mod c_api {
 
     #[no_mangle]
     pub unsafe extern "C" fn xeh_is_vector(val: *const Xcell) -> bool {
-        match *val {
+        match (*val).value() {
             Xcell::Vector(_) => true,
             _ => false,
         }
@@ -156,7 +156,7 @@ pub mod c_api {
 
     #[no_mangle]
     pub unsafe extern "C" fn xeh_is_bitstr(val: *const Xcell) -> bool {
-        match *val {
+        match (*val).value() {
             Xcell::Bitstr(_) => true,
             _ => false,
         }
@@ -164,7 +164,7 @@ pub mod c_api {
 
     #[no_mangle]
     pub unsafe extern "C" fn xeh_bitstr_bytes(val: *const Xcell) -> *const u8 {
-        match &*val {
+        match (*val).value() {
             Xcell::Bitstr(s) => 
                 // only a value that sits on byte boundaries of its own buffer can be lent out:
                 // bytestr() would hand back a temporary copy that is gone on return
@@ -179,7 +179,7 @@ pub mod c_api {
 
     #[no_mangle]
     pub unsafe extern "C" fn xeh_bitstr_len(val: *const Xcell) -> usize {
-        match &*val {
+        match (*val).value() {
             Xcell::Bitstr(s) => s.len(),
             _ => 0,
         }
@@ -187,7 +187,7 @@ pub mod c_api {
 
     #[no_mangle]
     pub unsafe extern "C" fn xeh_vector_len(val: *const Xcell) -> usize {
-        match &*val {
+        match (*val).value() {
             Xcell::Vector(v) => v.len(),
             _ => 0,
         }
@@ -195,7 +195,7 @@ pub mod c_api {
 
     #[no_mangle]
     pub unsafe extern "C" fn xeh_vector_at(val: *const Xcell, idx: usize) -> *mut Xcell {
-        match &*val {
+        match (*val).value() {
             Xcell::Vector(v) => {
                 if let Some(c) = v.get(idx) {
                     Box::into_raw(Box::new(c.clone()))
